@@ -285,3 +285,4 @@ PROPS["C15"]["rule"] += (" A third of the cases also enumerate SOURCE positions 
 PROPS["C02"]["rule"] += (" One run in three adds a fixed-shape output: a file that takes a type from each of 3-8 files it reaches only through the public imports of a hub, restricted to its message by a type filter; its dependency list is compared, four times per execution.")
 PROPS["C09"]["rule"] += (" One universe in 25 has a module of 257-420 files (more than any chunk or worker pool of a copy holds at once); crash states are sampled one in 29 there.")
 PROPS["C15"]["rule"] += (" One more write path: two plugin responses into one directory, the second inserting into the first one's file, with an expectation computed by the harness and boundary shapes (a 70 000 byte line below the insertion point / in the inserted content): the path may refuse the input with an error, it may not report success with less than everything.")
+PROPS["C08"]["rule"] += (" The remote module with pinned (sometimes legacy-digest) dependency keys is sometimes digested with a commit provider that knows no commit: the digest fails or equals the reference.")
